@@ -27,7 +27,7 @@ impl Template {
         w.paren(|w| {
             w.function(|w| {
                 w.expr_stmt(|w| {
-                    write!(w, "var H={{}}")?;
+                    write!(w, "var H=Object.create(null)")?;
                     Ok(())
                 })?;
                 w.expr_stmt(|w| {
@@ -38,7 +38,7 @@ impl Template {
                     write!(w, "var I=")?;
                     w.function_args("P", |w| {
                         w.expr_stmt(|w| {
-                            write!(w, "if(!S)S=Object.assign({{}}")?;
+                            write!(w, "if(!S)S=Object.assign(Object.create(null)")?;
                             for i in self.globals.imports.iter() {
                                 let p = crate::path::resolve(&self.path, &i.src.name);
                                 write!(w, ",(G[{}]||{{}})._", gen_lit_str(&p))?;
